@@ -438,6 +438,34 @@ theorem C14_reader_vs_parse (d : Char) (hd : GoodDelim d) (body : Str) (hb : NoB
       cases h
       simp [hq, hx]
 
+/-- **C14 (closing the open quote).**  In the third case of `C14_reader_vs_parse` the library
+parser behaves as if the missing closing quote were there: with it, `csv.reader` returns the
+fields the library parser returns without it. -/
+theorem C14_reader_open_quote_closed (d : Char) (hd : GoodDelim d) (body : Str) (hb : NoBreak body)
+    (eol : Str) (he : IsEol eol) (ho : OpenQuote d body) :
+    ∃ fs, parse d (body ++ eol) = .ok fs ∧ readerRecords d [body ++ ['"'] ++ eol] = .ok [fs] := by
+  obtain ⟨st, hrun, hq, hx⟩ := ho
+  have hb' : NoBreak (body ++ ['"']) := by
+    constructor <;> intro h <;> rw [List.mem_append] at h <;> rcases h with h | h
+    · exact hb.1 h
+    · simp at h
+    · exact hb.2 h
+    · simp at h
+  have hd' : ¬ ('"' = d) := fun h => hd.1 h.symm
+  have hrun' : run d St.init (body ++ ['"']) = .ok { st with ex := true } := by
+    rw [run_append, hrun]
+    obtain ⟨field, out, qb, ex⟩ := st
+    simp only at hq hx
+    subst hq; subst hx
+    simp [bind, Except.bind, run, step, hd']
+  refine ⟨st.out ++ [st.field], ?_, ?_⟩
+  · unfold parse
+    rw [rstrip_crlf_append body eol hb he, hrun]
+    rfl
+  · unfold readerRecords
+    rw [csvr_reader_line d hd _ hb' (by simp) eol he, hrun']
+    simp [hq]
+
 /-- **C14 (blank line).**  The one other difference: on a blank line `csv.reader` yields the
 empty record `[]`, the library parser the single empty field `['']` (so `load_csv` with
 `skip_empty_lines=False` makes a record of it, `C14_keep_empty_lines`). -/
@@ -696,6 +724,18 @@ theorem C14_strip_line_clean (d : Char) (hd : GoodDelim14 d) (eol : Str) (he : E
       = records (loadCsv o (fileOf bom d eol header rows)) := by
   rw [fileOf_eq]
   exact csvr_strip_line_clean o hb d hd.1 hd.2 hp eol he bom _ hc.1 hc.2 hcl
+
+/-- `C14_strip_line_clean` with its hypothesis on the cells: the delimiter is not a blank and no
+cell or name begins or ends with a blank -/
+theorem C14_strip_line_clean_cells (d : Char) (hd : GoodDelim14 d) (hdb : isPySpace d = false)
+    (eol : Str) (he : Eol eol) (bom : Bool)
+    (header : Option (List Str)) (rows : List (List Str)) (hc : CellsOK (allRows header rows))
+    (hcl : ∀ r ∈ allRows header rows, ∀ f ∈ r, OuterClean isPySpace f)
+    (o : Opts) (hp : Plain o d) (hb : o.binary = false) :
+    records (loadCsv { o with stripLine := true } (fileOf bom d eol header rows))
+      = records (loadCsv o (fileOf bom d eol header rows)) :=
+  C14_strip_line_clean d hd eol he bom header rows hc
+    (fun r hr => bodyOf_outerClean isPySpace d LF hdb (by decide) r (hcl r hr)) o hp hb
 
 /-- counter-example: `strip_line` is not `strip_field` — outer blanks of a line written from
 quoted cells survive, and a blank-only first cell before a blank delimiter disappears -/
